@@ -6,7 +6,7 @@ use pkgsrc::summary::Summary;
 use pkgsrc::{Pattern, PkgName};
 use serde_json::{json, Value};
 
-const CH: [&str; 10] = ["-", "n", "b", "N", "0", "1", "9", ".", "a", "é"];
+const CH: [&str; 11] = ["-", "n", "b", "N", "0", "1", "9", ".", "a", "é", " "];
 
 /// version = V0 + "nb" + 1..18 digits at the very end?
 fn trailing_nb(version: &str) -> Option<(&str, i64)> {
@@ -142,7 +142,7 @@ fn main() {
         run.finish_replay(replay(doc), replay(doc));
     }
     run.rule(
-        "every string of <= L characters over '- n b N 0 1 9 . a e-acute' (any number of '-', empty \
+        "every string of <= L characters over '- n b N 0 1 9 . a e-acute SP' (any number of '-', empty \
          parts, 'nb' inside the base or several times in the version, upper-case N, non-ASCII), \
          plus every name base-V0nb<R> for 18-digit revisions: pkgname() is the input; base/version \
          are the parts around the last '-'; base-version rebuilds the name; a version ending in \
@@ -154,8 +154,8 @@ fn main() {
     );
     run.assume("other shapes of 'nb' (not trailing, or without digits) are unconstrained by the statement and only checked for losslessness");
 
-    let l = run.pick(7, 8);
-    run.bound(format!("all {} strings of length <= {} over 10 characters; 18-digit revisions on 6 bases", seqs::count(10, l), l));
+    let l = run.pick(6, 7);
+    run.bound(format!("all {} strings of length <= {} over 11 characters; 18-digit revisions on 6 bases", seqs::count(CH.len(), l), l));
     seqs::par_seqs(&run, "C18", CH.len(), l, 2, |_| false, |s, t| {
         let name: String = s.iter().map(|i| CH[*i]).collect();
         check(t, &name);
